@@ -558,6 +558,22 @@ func genC02(t *rapid.T) c02Case {
 		for i := 0; i < n; i++ {
 			children[fmt.Sprintf("f%d", i)] = g.decl(1, true)
 		}
+		if rapid.IntRange(0, 4).Draw(t, "implicitNodeTwins") == 0 {
+			// a function that takes the current node implicitly (copy) and has no anchor of its own, evaluated at several
+			// cursor positions of one record: textually identical declarations whose values differ only by the node they
+			// are evaluated on (every element of an array, an anchored object, the record itself)
+			mk := func() map[string]interface{} {
+				return map[string]interface{}{"custom_func": map[string]interface{}{"name": "copy"}}
+			}
+			children["zc"] = map[string]interface{}{"array": []interface{}{
+				map[string]interface{}{"object": map[string]interface{}{"v": mk()}, "xpath": g.xpath()}}}
+			if rapid.Bool().Draw(t, "twinAtRecord") {
+				children["zd"] = mk()
+			}
+			if rapid.Bool().Draw(t, "twinAtAnchor") {
+				children["ze"] = map[string]interface{}{"object": map[string]interface{}{"v": mk()}, "xpath": g.xpath()}
+			}
+		}
 		fo = map[string]interface{}{"object": children}
 	}
 	// template references with an xpath: only when the body has no anchor of its own
@@ -797,6 +813,9 @@ func checkC02(c c02Case) obs.Result {
 	}
 	if st.deepAnchors {
 		classes = append(classes, "deep-anchors")
+	}
+	if bytes.Contains(c.Decls, []byte(`"zc":{"array":[{"object":{"v":{"custom_func":{"name":"copy"}}}`)) {
+		classes = append(classes, "implicit-node-func-at-several-nodes")
 	}
 	fo := decls["FINAL_OUTPUT"].(map[string]interface{})
 	twinSch, err := omniparser.NewSchema("twin", strings.NewReader(c.twinSchema()))
